@@ -1,10 +1,169 @@
 import TempestVerif.Drv.Util
-/- line-protocol handlers of property C10 (stub: no commands yet) -/
+import TempestVerif.Model.ClosedLoop
+/- line-protocol handlers of property C10: the CLOSED-LOOP whole-run model (`Model.ClosedLoop`) at Float.
+
+   The abstract `World` is instantiated from a recorded run: particle records are integer tags, `like` is a table, and the
+   "random stream" `G` is the collection of recorded answers of the random / opaque calls, each consumed in program order
+   (a call that finds its queue empty sets `bad`).  The model itself decides the temperature schedule (both metric modes),
+   the trimming, the resampled indices, the accept masks, the step-size adaptation, the NUMBER of accept/reject steps and
+   the NUMBER of iterations; the harness compares all of them with what the real run did.
+
+   cl.F ratio=<f> n=<nat> vv=<f|none> tolE=<f> tolB=<f> fuel=<nat> syst=<0|1> tpcn=<0|1> nsteps=<nat> nmax=<nat> ndim=<nat>
+        sigma0=<f> trimess=<f> trimbins=<nat> tolterm=<f> ntotal=<f> mcfuel=<nat> maxit=<nat>
+        like=<f|x>,…                       log-likelihood of tag 0,1,2,… (`x` = −inf)
+        draws=<tags>|…   choices=<nats>|…   resu=<floats>|…   unifs=<floats>|…        (`-` = empty list, `_` = no entries)
+        trains=<K>;<predict>;<mode index>;<mode labels>|…
+        props=<tag>:<factor>:<0|1>,…|…
+        vvtab=<pool size>:<beta>:<value>,…   (the value `volume_variation` returned for that pool at that trial beta)
+   → <iter>|…#<final logz|none>#<bad 0|1>;<left draws>;<left choices>;<left resu>;<left trains>;<left props>;<left unifs>;<stop>
+       iter: <beta>;<ess>;<logz after reweight>;<logz committed>;<branch>;<idx>;<mask>+…;<steps>;<sigmas>;<acceptance>;
+             <efficiency>;<calls>;<trimmed tags>;<trimmed weights>;<committed tags>;<committed logl>
+       stop: `guard` (the model's `_not_termination` returned False), `maxit`, `error` (the model left its domain)
+-/
 namespace Drv.C10
-open Drv
+open Drv Model.ClosedLoop Model.Reweight
+
+structure TrainRec where
+  K : Nat
+  predict : List Nat
+  midx : List Nat
+  labels : List Nat
+
+structure Trace where
+  draws : List (List Nat)
+  choices : List (List Nat)
+  resu : List (List Float)
+  trains : List TrainRec
+  props : List (List (Nat × Float × Bool))
+  unifs : List (List Float)
+  bad : Bool
+
+def nan : Float := 0.0 / 0.0
+
+def mkWorld (like : Array (Option Float)) (vvtab : List (Nat × Float × Float)) : World Float Nat TrainRec (List Nat) Trace where
+  like := fun p => (like[p]?).join
+  priorDraw := fun g _ => match g.draws with
+    | d :: r => (d, { g with draws := r })
+    | [] => ([], { g with bad := true })
+  choice := fun g _ _ => match g.choices with
+    | d :: r => (d, { g with choices := r })
+    | [] => ([], { g with bad := true })
+  resampleU := fun g _ => match g.resu with
+    | d :: r => (d, { g with resu := r })
+    | [] => ([], { g with bad := true })
+  train := fun ts g _ _ _ _ => match g.trains with
+    | t :: r => (t, t.predict, { g with trains := r })
+    | [] => (⟨0, [], [], []⟩, ts, { g with bad := true })
+  dummy := ⟨1, [], [], []⟩
+  predict := fun ts _ => ts
+  modeIndex := fun ms _ _ => (ms.midx, ms.labels)
+  nModes := fun ms => ms.K
+  propose := fun _ _ _ _ g => match g.props with
+    | d :: r => (d, { g with props := r })
+    | [] => ([], { g with bad := true })
+  unif := fun g _ => match g.unifs with
+    | d :: r => (d, { g with unifs := r })
+    | [] => ([], { g with bad := true })
+  volvar := fun pool _ beta => match vvtab.find? (fun p => p.1 == pool.length && p.2.1 == beta) with
+    | some p => p.2.2
+    | none => nan
+
+def parseOptF? (s : String) : Option (Option Float) :=
+  if s == "x" then some none else (parseFloat? s).map some
+
+/-- `a|b|c` → list of parsed entries; `_` = no entries at all -/
+def parseQueue? {β : Type} (f : String → Option β) (s : String) : Option (List β) :=
+  if s == "_" then some [] else (s.splitOn "|").mapM f
+
+def parseTrain? (s : String) : Option TrainRec :=
+  match s.splitOn ";" with
+  | [k, a, b, c] => do
+    let K ← k.toNat?
+    let p ← parseNatList? a
+    let mi ← parseNatList? b
+    let ml ← parseNatList? c
+    pure ⟨K, p, mi, ml⟩
+  | _ => none
+
+def parseProp? (s : String) : Option (Nat × Float × Bool) :=
+  match s.splitOn ":" with
+  | [a, b, c] => do
+    let t ← a.toNat?
+    let f ← parseFloat? b
+    pure (t, f, c == "1")
+  | _ => none
+
+def parseVv? (s : String) : Option (Nat × Float × Float) :=
+  match s.splitOn ":" with
+  | [n, a, b] => do
+    let k ← n.toNat?
+    let x ← parseFloat? a
+    let y ← parseFloat? b
+    pure (k, x, y)
+  | _ => none
+
+def showMask (m : List Bool) : String := if m.isEmpty then "-" else String.ofList (m.map fun b => if b then '1' else '0')
+
+def showIter (s : CState Float Nat (List Nat) Trace) (o : CIterOut Float Nat) : String :=
+  let tin := match o.trainIn with
+    | some t => s!"{showList toString t.1};{showList showFloat t.2}"
+    | none => "-;-"
+  ";".intercalate [showFloat o.beta, showFloat o.ess, showFloat o.logzRw, showFloat o.logz, o.branch.name,
+    showList toString o.idx, (if o.masks.isEmpty then "-" else "+".intercalate (o.masks.map showMask)),
+    toString s.steps, showList showFloat o.sigmas, showFloat s.acceptance, showFloat s.efficiency, toString s.calls,
+    tin, showList toString s.cur, showList showFloat s.curL]
+
+def cl (args : List (String × String)) : Option String := do
+  let ratio ← (getArg args "ratio").bind parseFloat?
+  let n ← (getArg args "n").bind String.toNat?
+  let vv ← (getArg args "vv").bind fun s => if s == "none" then some none else (parseFloat? s).map some
+  let tolE ← (getArg args "tolE").bind parseFloat?
+  let tolB ← (getArg args "tolB").bind parseFloat?
+  let fuel ← (getArg args "fuel").bind String.toNat?
+  let syst ← (getArg args "syst").map (· == "1")
+  let tpcn ← (getArg args "tpcn").map (· == "1")
+  let nsteps ← (getArg args "nsteps").bind String.toNat?
+  let nmax ← (getArg args "nmax").bind String.toNat?
+  let ndim ← (getArg args "ndim").bind String.toNat?
+  let sigma0 ← (getArg args "sigma0").bind parseFloat?
+  let trimess ← (getArg args "trimess").bind parseFloat?
+  let trimbins ← (getArg args "trimbins").bind String.toNat?
+  let tolterm ← (getArg args "tolterm").bind parseFloat?
+  let ntotal ← (getArg args "ntotal").bind parseFloat?
+  let mcfuel ← (getArg args "mcfuel").bind String.toNat?
+  let maxit ← (getArg args "maxit").bind String.toNat?
+  let like ← (getArg args "like").bind (parseList? parseOptF?)
+  let draws ← (getArg args "draws").bind (parseQueue? parseNatList?)
+  let choices ← (getArg args "choices").bind (parseQueue? parseNatList?)
+  let resu ← (getArg args "resu").bind (parseQueue? (parseList? parseFloat?))
+  let unifs ← (getArg args "unifs").bind (parseQueue? (parseList? parseFloat?))
+  let trains ← (getArg args "trains").bind (parseQueue? parseTrain?)
+  let props ← (getArg args "props").bind (parseQueue? (parseList? parseProp?))
+  let vvtab ← (getArg args "vvtab").bind (parseList? parseVv?)
+  let W := mkWorld like.toArray vvtab
+  let c : CCfg Float := ⟨⟨ratio, n, vv, tolE, tolB, fuel⟩, syst, tpcn, nsteps, nmax, ndim, sigma0, trimess, trimbins,
+    tolterm, ntotal, mcfuel⟩
+  let g0 : Trace := ⟨draws, choices, resu, trains, props, unifs, false⟩
+  -- `while contGuard: iterate` — the two components of `Model.ClosedLoop.runLoop`, stepped here so that the iteration
+  -- at which the model leaves its domain can be reported
+  let rec go (s : CState Float Nat (List Nat) Trace) (k : Nat) (acc : List String) : Nat → (CState Float Nat (List Nat) Trace × List String × String)
+    | 0 => (s, acc.reverse, if contGuard c s then "maxit" else "guard")
+    | fuel + 1 =>
+      if contGuard c s then
+        match iterate W c s with
+        | some (s', o) => go s' (k + 1) (showIter s' o :: acc) fuel
+        | none => (s, acc.reverse, "error")
+      else (s, acc.reverse, "guard")
+  let (sf, its, stop) := go (init [] g0) 0 [] maxit
+  let ev := match finalLogz sf with | some z => showFloat z | none => "none"
+  let g := sf.g
+  let tail := ";".intercalate [showBool g.bad, toString g.draws.length, toString g.choices.length, toString g.resu.length,
+    toString g.trains.length, toString g.props.length, toString g.unifs.length, stop]
+  pure s!"{"|".intercalate its}#{ev}#{tail}"
 
 def handle (cmd : String) (args : List (String × String)) : Option String :=
   match cmd with
+  | "cl.F" => some ((cl args).getD "bad-op")
   | _ => none
 
 end Drv.C10
